@@ -26,6 +26,15 @@ CHECKS = {
  "C06": dict(cat="model_checking", eng="e3", tech="exhaustive enumeration of all handle call sequences up to depth 3-4 x configurations on the real Stream, against a Vec<u8>+cursor model",
    text="Every sequence (depth 3 quick, 3-4 thorough) over 38-67 handle calls - read, fill_buf/consume, write, seek Start/End/Current with targets at 0, the buffer capacity, the length (each +-1) and the i64/u64 extremes, set_len, flush, position, len - is run for every configuration of max_buffer_size (below the minimum, 1024, non-power-of-two, 1 MiB), version and initial length; every call is compared with a byte vector and cursor, refused seeks must leave the position unchanged, and a fresh handle reads everything back, including two neighbouring streams.",
    note="The model accepts any legal short count. Overflow checks are on in the build, so an arithmetic overflow is a panic. Sequences longer than the depth are not covered.", ref="4 E3"),
+ "C12": dict(cat="fault_enumeration", eng="e4", tech="exhaustive single and pairwise fault injection at every underlying read/seek call index of read-only workloads, run to completion with retries",
+   text="Each read-only workload (open in both modes + lookups; buffered reads of a mini and a regular stream with refills, fill_buf/consume and seeks across the window, two buffer sizes, both versions) is first run fault-free to learn its N underlying calls, then once per read/seek call index with that call failing, then for all pairs of positions in the stream-read phase (thorough: all pairs including the open phase for V3). Failed API calls are retried. Every successful call must return the fault-free value, bytes must equal the true content at the position the handle reports, and nothing may panic.",
+   note="Faults are ErrorKind::Other failures with no side effect on the backend. Three or more faults per run, and faults combined with short reads, are not explored.", ref="4 E4"),
+ "C13": dict(cat="fault_enumeration", eng="e4", tech="exhaustive fault injection at every underlying write/seek/flush call index of mutating workloads (pairs in thorough), with retry of the failed call and the rest of the workload",
+   text="Four mutating workloads (small stream then migration to a regular chain; large, overwrite, shrink to mini, grow back; storages/streams/removals/setters; buffer-overflow write-back with a 1024-byte buffer) x both versions: one run per write/seek/flush call index failing (thorough: all pairs). Oracles: a fault delivered during an API call makes that call return Err (Drop excluded); nothing panics or hangs afterwards (stall watchdog); whenever flush returns Ok a fresh handle reads back every byte accepted by earlier writes, also after an earlier failed flush.",
+   note="After a failed set_len / create the stream's content is treated as unknown (only no-panic is judged). Faults have no side effect on the backend (no torn writes).", ref="4 E4"),
+ "C18": dict(cat="model_checking", eng="e4", tech="exhaustive enumeration of histories x environment answers (every chunk size, a short count / Interrupted at every transfer index, real file, buffer sizes, versions) with byte-identity oracle",
+   text="Every history of a bounded set (all op sequences to depth 2-3 over a content alphabet with a nested storage, plus the growth seeds) is run plain, again, on a real file through cfb::create / open_rw / open, with all transfers chunked to c bytes for each c in the list, with Interrupted on every 2nd/3rd/5th transfer, with one 1-byte short count and one Interrupted at every transfer index k, for each max_buffer_size and in the other version. Results and final images must be byte-identical (logical dumps for buffer size and version).",
+   note="Timestamps are pinned via the public setters. Short counts on a real file are modelled by the chunking backend, not provoked from the OS.", ref="4 E4"),
 }
 
 NOT_YET = {
@@ -60,6 +69,7 @@ def main():
             "add_only": True,
         },
         "engines": [
+            {"name": "e4", "path": "/verif/harness/src/e4.rs", "serves_properties": ["C12", "C13", "C18"], "kind_free_text": "fault / short-count / interruption enumeration at every underlying call index on the generic backend"},
             {"name": "e3", "path": "/verif/harness/src/e3.rs", "serves_properties": ["C06"], "kind_free_text": "exhaustive call-sequence enumeration on one stream handle"},
             {"name": "e1", "path": "/verif/harness/src/e1.rs", "serves_properties": ["C01", "C02", "C03", "C08", "C10", "C15"], "kind_free_text": "explicit-state BFS over byte images + exhaustive op-sequence enumeration on the real code"},
         ],
